@@ -12,7 +12,7 @@ import subprocess
 import sys
 
 from vlib.engine import CaseViolation, Inconclusive, repo_root
-from vlib.tagoracle import LibDriver, HOSTILE_INSTANCE, ORDINARY, gen_names, runtime_hostile
+from vlib.tagoracle import LibDriver, HOSTILE_INSTANCE, ORDINARY, gen_names, runtime_hostile, own_attribute_names
 
 PROP = 'C19'
 LEVEL = 'exploration'
@@ -33,7 +33,7 @@ ASSUMPTIONS = ['which hostile names are accepted is not prescribed; ordinary ide
                'names are str (the quantifier ranges over strings)']
 FLOORS = {'quick': {'adds_accepted': 5000, 'adds_rejected_duplicate': 1500, 'adds_rejected_none': 300, 'hostile_tried': 4000,
                     'hostile_rejected': 500, 'hostile_accepted': 500, 'id_probes': 10000, 'unknown_name_probes': 5000,
-                    'full_checks': 20000, 'module_histories': 24, 'module_hostile_tried': 210, 'contract:TagLibrary.bijection': 20000,
+                    'full_checks': 20000, 'itemize_result_mutated': 5000, 'module_histories': 24, 'module_hostile_tried': 210, 'contract:TagLibrary.bijection': 20000,
                     'reach:Tags.TagLibrary.add_tag': 8000},
           'thorough': {'adds_accepted': 400000, 'module_histories': 2000}}
 EXHAUSTIVE = {}
@@ -45,7 +45,7 @@ def case_instances(ctx, case):
     contracts.attach_taglibrary(tags)
     rng = ctx.rng('inst', case['i'])
     libs = [LibDriver(ctx, tags, tags.TagLibrary(), 'instance', f'L{j}') for j in range(rng.randint(2, 3))]
-    names = gen_names(rng, rng.randint(10, 40), HOSTILE_INSTANCE, runtime_hostile(tags))
+    names = gen_names(rng, rng.randint(10, 40), HOSTILE_INSTANCE, runtime_hostile(tags), own_attribute_names(tags))
     tried = []
     for n in names:
         lib = rng.choice(libs)
